@@ -18,6 +18,7 @@ type HarnessEvidence struct {
 	Discharged    int                `json:"assertion_queries_unsat"`
 	ConcreteAsrt  int                `json:"assertions_decided_concretely"`
 	Nontrivial    int                `json:"paths_with_assertion_query"`
+	WithAssertion int                `json:"paths_with_assertion"`
 	Reached       map[string]int     `json:"reach_tags"`
 	Bounds        map[string]string  `json:"bounds"`
 	Params        map[string]int     `json:"params,omitempty"`
@@ -62,7 +63,7 @@ func newEvidence(id, tier string, seed int, ps *PropSpec) *Evidence {
 
 func (ev *Evidence) addHarness(hs HarnessSpec, rep *interp.HarnessReport, eng *interp.Engine) *HarnessEvidence {
 	h := &HarnessEvidence{Name: hs.Name, Paths: rep.Paths, Outcomes: rep.Outcomes, Obligations: rep.Obligations, Discharged: rep.Discharged,
-		ConcreteAsrt: rep.ConcreteAsrt, Nontrivial: rep.Nontrivial, Reached: rep.Reached, Bounds: rep.Bounds, Params: hs.Params,
+		ConcreteAsrt: rep.ConcreteAsrt, Nontrivial: rep.Nontrivial, WithAssertion: rep.WithAssertion, Reached: rep.Reached, Bounds: rep.Bounds, Params: hs.Params,
 		Solver: eng.Cfg.Solver, SolverQueries: eng.Stats.Queries, SolverSecs: float64(eng.Stats.NanosSum) / 1e9,
 		MaxDecisions: rep.MaxDecisions, UnwindFails: rep.BudgetFails, Unsupported: rep.Inconclusive, Secs: rep.Secs, Samples: rep.Samples}
 	if h.UnwindFails == nil {
@@ -84,13 +85,14 @@ func (ev *Evidence) addHarness(hs HarnessSpec, rep *interp.HarnessReport, eng *i
 func (ev *Evidence) finish(wall float64, violations int, known, inconclusive []string) {
 	ev.Wall = wall
 	ev.Violations = violations
-	paths, nontriv, obl, dis, conc := 0, 0, 0, 0, 0
+	paths, nontriv, obl, dis, conc, solverPaths := 0, 0, 0, 0, 0, 0
 	var queries int64
 	var ssecs float64
 	var samples []interface{}
 	for _, h := range ev.harnesses {
 		paths += h.Paths
-		nontriv += h.Nontrivial
+		nontriv += h.WithAssertion
+		solverPaths += h.Nontrivial
 		obl += h.Obligations
 		dis += h.Discharged
 		conc += h.ConcreteAsrt
@@ -127,7 +129,8 @@ func (ev *Evidence) finish(wall float64, violations int, known, inconclusive []s
 	c["explanation"] = ev.ps.Explanation + " Decided by symbolic execution of the real functions (go/ssa of /repo's working tree, rebuilt on this run) with an SMT solver deciding every branch feasibility and every assertion over all input values within the stated bounds; clean paths are cross-checked and counterexamples replayed against the native build."
 	c["evaluations"] = paths
 	c["distinct_nontrivial"] = nontriv
-	c["rule"] = "one evaluation = one feasible execution path (distinct decision vector) of a harness, each standing for all inputs that follow it; non-trivial = the path sent at least one assertion query to the solver"
+	c["rule"] = "one evaluation = one feasible execution path (distinct decision vector, so paths are distinct by construction) of a harness, each standing for all inputs that follow it; non-trivial = the path evaluated at least one assertion of the property (decided by an SMT query, or concretely by the executor when the asserted term folded to a constant on that path); paths_with_solver_decided_assertion counts the former only"
+	c["paths_with_solver_decided_assertion"] = solverPaths
 	c["samples"] = samples
 	c["obligations"] = obl
 	c["discharged"] = dis
